@@ -10,13 +10,17 @@
 
 static size_t LIVE, PEAK;
 static int TRACK;
+/* release balance (C20, argument leaks=1): allocations made by the library between the creation of the input stream and the
+ * return of lha_input_stream_free */
+static long BAL;
+static int BTRACK, LEAKS;
 void *__real_malloc(size_t n);
 void *__real_calloc(size_t a, size_t b);
 void *__real_realloc(void *p, size_t n);
 void __real_free(void *p);
 char *__real_strdup(const char *s);
-static void live_add(void *p) { if (p && TRACK) { LIVE += malloc_usable_size(p); if (LIVE > PEAK) PEAK = LIVE; } }
-static void live_sub(void *p) { if (p && TRACK) { size_t u = malloc_usable_size(p); LIVE = LIVE > u ? LIVE - u : 0; } }
+static void live_add(void *p) { if (p && BTRACK) ++BAL; if (p && TRACK) { LIVE += malloc_usable_size(p); if (LIVE > PEAK) PEAK = LIVE; } }
+static void live_sub(void *p) { if (p && BTRACK) --BAL; if (p && TRACK) { size_t u = malloc_usable_size(p); LIVE = LIVE > u ? LIVE - u : 0; } }
 void *__wrap_malloc(size_t n) { void *p = __real_malloc(n); live_add(p); return p; }
 void *__wrap_calloc(size_t a, size_t b) { void *p = __real_calloc(a, b); live_add(p); return p; }
 void *__wrap_realloc(void *q, size_t n) { void *p; live_sub(q); p = __real_realloc(q, n); live_add(p ? p : (n ? q : NULL)); return p; }
@@ -138,11 +142,12 @@ static int walk(int kind, const uint8_t *a, size_t n, int mode, size_t piece, ob
 	memset(o, 0, sizeof *o);
 	LIVE = 0; PEAK = 0;
 	F_READS = F_ZERO = F_SEEKS = 0;
-	if (!src_open(&s, kind, a, n)) { printf("HARNESS cannot open source kind %d\n", kind); return 0; }
+	BAL = 0; BTRACK = LEAKS;
+	if (!src_open(&s, kind, a, n)) { BTRACK = 0; printf("HARNESS cannot open source kind %d\n", kind); return 0; }
 	TRACK = 1;
 	ESCAPE_ARMED = 1;
 	if (sigsetjmp(ESCAPE, 0)) {
-		TRACK = 0; ESCAPE_ARMED = 0;
+		TRACK = 0; ESCAPE_ARMED = 0; BTRACK = 0;
 		o->hang = 1;
 		o->peak = PEAK;
 		src_close(&s, 1);
@@ -154,7 +159,7 @@ static int walk(int kind, const uint8_t *a, size_t n, int mode, size_t piece, ob
 		if (!h) break;
 		if (o->members >= AB_MAXMEM) break;
 		o->hdr[o->members] = header_hash(h);
-		vf_step(o->hdr[o->members]);
+		{ int b_ = BTRACK, t_ = TRACK; BTRACK = 0; TRACK = 0; vf_step(o->hdr[o->members]); BTRACK = b_; TRACK = t_; }   /* the harness's own hash set grows here */
 		/* -pm1- is endless by specification: a member declaring gigabytes legitimately produces them; list it only */
 		if (mode && h->length > (1u << 20) && !strcmp(h->compress_method, "-pm1-")) { ++o->members; continue; }
 		if (mode == 1) {
@@ -166,7 +171,7 @@ static int walk(int kind, const uint8_t *a, size_t n, int mode, size_t piece, ob
 				API(piece < left ? piece : left, got = lha_reader_read(rd, buf, piece));
 				bh = bytes_hash(buf, got, bh);
 				tot += got;
-				if (tot > declared) { vf_viol("c13-output-exceeds-declared", "member %d produced %zu > declared %zu", o->members, tot, declared); break; }
+				if (tot > declared) { if (!LEAKS) vf_viol("c13-output-exceeds-declared", "member %d produced %zu > declared %zu", o->members, tot, declared); break; }
 			} while (got > 0);
 			o->body[o->members] = bh; o->body_len[o->members] = tot;
 		} else if (mode == 2) {
@@ -178,10 +183,14 @@ static int walk(int kind, const uint8_t *a, size_t n, int mode, size_t piece, ob
 		++o->members;
 	}
 	/* after the end: further requests keep reporting the end */
-	{ int k; for (k = 0; k < 2; ++k) { API(0, h = lha_reader_next_file(rd)); if (h) vf_viol("end-not-sticky", "a header was returned after the end of the archive"); } }
+	{ int k; for (k = 0; k < 2; ++k) { API(0, h = lha_reader_next_file(rd)); if (h && !LEAKS) vf_viol("end-not-sticky", "a header was returned after the end of the archive"); } }
 	TRACK = 0; ESCAPE_ARMED = 0;
 	o->peak = PEAK;
 	lha_reader_free(rd);
+	if (s.st) { lha_input_stream_free(s.st); s.st = NULL; }
+	BTRACK = 0;
+	if (LEAKS && BAL != 0)
+		vf_viol("c20-leak-after-free", "%s, walk mode %d: %ld allocation(s) of the library still live after lha_reader_free and lha_input_stream_free", KIND_NAME[kind], mode, BAL);
 	src_close(&s, 0);
 	if (over_budget) o->hang = 2;
 	return 1;
@@ -829,11 +838,14 @@ static void space_verdict(void)
 static void extract_walk(const uint8_t *a, size_t n)
 {
 	mem_stream ms;
-	LHAInputStream *st = mem_open(&ms, a, n, 1);
-	LHAReader *rd = lha_reader_new(st);
+	LHAInputStream *st;
+	LHAReader *rd;
 	LHAFileHeader *h;
 	int k = 0;
 	char name[64];
+	BAL = 0; BTRACK = LEAKS;
+	st = mem_open(&ms, a, n, 1);
+	rd = lha_reader_new(st);
 	while ((h = lha_reader_next_file(rd)) != NULL && k < 200) {
 		/* explicit output names: the library itself does not confine header paths */
 		snprintf(name, sizeof name, "c08-out-%d-%d", (int) getpid(), k);
@@ -844,6 +856,9 @@ static void extract_walk(const uint8_t *a, size_t n)
 	}
 	lha_reader_free(rd);
 	lha_input_stream_free(st);
+	BTRACK = 0;
+	if (LEAKS && BAL != 0)
+		vf_viol("c20-leak-after-free", "extract-all walk: %ld allocation(s) of the library still live after lha_reader_free and lha_input_stream_free", BAL);
 	while (k-- > 0) {
 		snprintf(name, sizeof name, "c08-out-%d-%d", (int) getpid(), k);
 		if (unlink(name) != 0) rmdir(name);
@@ -942,6 +957,7 @@ int main(int argc, char **argv)
 	int prop;
 	vf_init(argc, argv);
 	prop = atoi(vf_extra("prop", "16"));
+	LEAKS = atoi(vf_extra("leaks", "0"));
 	if (!strcmp(VF.space, "kinds")) space_kinds(prop);
 	else if (!strcmp(VF.space, "sfx")) space_sfx();
 	else if (!strcmp(VF.space, "extreme")) space_extreme();
